@@ -394,16 +394,22 @@ func (cc *connectUnaryClientConn) validateResponse(response *http.Response) *Err
 			bufferPool:      cc.bufferPool,
 		}
 		var serverErr Error
-		if err := unmarshaler.UnmarshalFunc(
+		unmarshalErr := unmarshaler.UnmarshalFunc(
 			(*connectWireError)(&serverErr),
 			json.Unmarshal,
-		); err == nil {
+		)
+		if unmarshalErr == nil {
 			if serverErr.code == 0 {
 				serverErr.code = connectHTTPToCode(response.StatusCode)
 			}
 			serverErr.meta = cc.responseHeader.Clone()
 			mergeHeaders(serverErr.meta, cc.responseTrailer)
 			return &serverErr
+		}
+		if code := unmarshalErr.Code(); code == CodeCanceled || code == CodeDeadlineExceeded {
+			// The call was canceled or timed out while we were reading the error
+			// body: that, rather than the HTTP status, is why it failed.
+			return unmarshalErr
 		}
 		return NewError(
 			connectHTTPToCode(response.StatusCode),
@@ -791,6 +797,9 @@ func (u *connectUnaryUnmarshaler) UnmarshalFunc(message any, unmarshal func([]by
 	// ReadFrom ignores io.EOF, so any error here is real.
 	bytesRead, err := data.ReadFrom(reader)
 	if err != nil {
+		// The reader may be a bare HTTP body, which reports cancellation and
+		// timeouts as uncoded context errors.
+		err = wrapIfContextError(err)
 		if connectErr, ok := asError(err); ok {
 			return connectErr
 		}
